@@ -573,7 +573,13 @@ class SBlock(Block):
                 self.log_debug("pending event, initializing early")
                 # the initialization may be carried out with an event, let's enable it
                 with self._enable_event:    # type: ignore[attr-defined]
-                    self.circuit.init_sblock(self, full=True)
+                    try:
+                        self.circuit.init_sblock(self, full=True)
+                    except Exception as err:
+                        # a failed initialization is fatal even if the sender of this event
+                        # catches the exception
+                        self.circuit.abort(err)
+                        raise
             if isinstance(etype, str):
                 handler = type(self)._ct_handlers.get(etype)
             else:
